@@ -392,6 +392,9 @@ func (c *copier) copy(ctx context.Context, src, srcComponents, target string, ov
 			return nil
 		}
 
+		// whatever an earlier source of this call put there is replaced:
+		// it can no longer stand in for the inode it was copied from
+		c.forgetLinkSources(target)
 		if err := ensureEmptyFileTarget(target); err != nil {
 			return err
 		}
@@ -532,7 +535,20 @@ func (c *copier) removeTargetIfNeeded(target string, srcFi, targetFi os.FileInfo
 		// directories are merged, not replaced
 		return nil
 	}
+	c.forgetLinkSources(target)
 	return os.RemoveAll(target)
+}
+
+// forgetLinkSources drops the destination paths at or below target from the
+// record of first members that later hard links of the same source inode are
+// linked to: the entry there is about to be replaced (a later wildcard match
+// that lands on the same path), and a link to it would carry other content.
+func (c *copier) forgetLinkSources(target string) {
+	for inode, dst := range c.inodes {
+		if dst == target || strings.HasPrefix(dst, target+string(filepath.Separator)) {
+			delete(c.inodes, inode)
+		}
+	}
 }
 
 // Delayed creation of parent directories when a file or dir matches an include
